@@ -1,5 +1,314 @@
 package main
 
-import "github.com/pgavlin/dawn/internal/verif/vlib"
+import (
+	"fmt"
+	"sort"
+	"strings"
 
-func crashMain(r *vlib.Run, x *searcher) { vlib.Fatalf("C03 crash mode not built yet") }
+	"github.com/pgavlin/dawn/internal/verif/vlib"
+	"github.com/pgavlin/dawn/internal/verif/vos"
+	"github.com/pgavlin/dawn/internal/verif/vsched"
+)
+
+// C03 — failed and interrupted builds are recoverable.
+//
+// The binary is built with project.go/project_index.go's os redirected to vos and the root
+// package's sync redirected to vsync, and every build runs under the controlled scheduler:
+// exactly one thread runs, and every persistent effect (record temp-file create/write/rename,
+// mkdir, index create/write, a body's emit) is preceded by a point at which the directory is
+// exactly what a process death at that instant leaves behind. One execution therefore yields
+// every crash state along its linearisation of the effects; other linearisations (effects of
+// independent targets interleaved differently) are reached by exploring schedules.
+//
+// From every crash state (and every failure pattern) the search continues breadth-first with
+// further edits and builds; the oracles are: the state loads; after the next successful build
+// the closure is current (an unfinished or failed execution counts as not executed) and the
+// outputs equal a from-scratch build.
+
+type crashState struct {
+	k     int    // effects 0..k-1 happened
+	torn  string // "" or description of a torn in-place write inside effect k
+	tree  map[string]string
+	model Model
+	desc  string
+}
+
+type effectRec struct {
+	desc  string
+	write []byte
+	path  string
+}
+
+// crashStates runs one build of target under the scheduler with the given schedule prefix and
+// returns the crash states along it.
+func (x *searcher) crashStates(pre *State, o buildOpts, prefix []int, tornAll bool) ([]crashState, *buildResult) {
+	var effects []effectRec
+	var snaps []map[string]string
+	var res *buildResult
+	x.withRoot(func(root string) {
+		writeTree(root, pre.files())
+		var pendPath string
+		var pendData []byte
+		vos.OnWrite = func(path string, data []byte) { pendPath, pendData = path, append([]byte{}, data...) }
+		res = buildCtl(root, pre.V, o, ctlOpts{prefix: prefix, onEffect: func(idx int, desc string) {
+			e := effectRec{desc: strings.ReplaceAll(desc, root+"/", "")}
+			if strings.HasPrefix(desc, "write ") {
+				e.write, e.path = pendData, strings.TrimPrefix(pendPath, root+"/")
+			}
+			effects = append(effects, e)
+			snaps = append(snaps, readTree(root))
+		}})
+		vos.OnWrite = nil
+		snaps = append(snaps, readTree(root)) // after the last effect: the build completed
+	})
+	x.nBuilds.Add(1)
+	if res.Sched != nil && (res.Sched.Deadlock != "" || res.Sched.Livelock != "" || res.Sched.Panic != "") {
+		x.violation("build-did-not-terminate", res.Sched.Deadlock+res.Sched.Livelock+firstLine(res.Sched.Panic), pre, append(pre.Hist, "crashbuild:"+o.Target), res)
+		return nil, res
+	}
+	var out []crashState
+	for k := 0; k <= len(effects); k++ {
+		cs := crashState{k: k, tree: snaps[k], model: x.modelAt(pre, o, res, effects, k, snaps[k])}
+		if k < len(effects) {
+			cs.desc = fmt.Sprintf("before effect %d/%d: %s", k, len(effects), effects[k].desc)
+		} else {
+			cs.desc = "after the last effect"
+		}
+		out = append(out, cs)
+		// torn in-place writes (anything that is not a temporary file)
+		if k < len(effects) && effects[k].write != nil && !strings.Contains(effects[k].path, "/temp/") {
+			data := effects[k].write
+			var cuts []int
+			if tornAll {
+				for p := 1; p < len(data); p++ {
+					cuts = append(cuts, p)
+				}
+			} else {
+				for _, p := range []int{1, len(data) / 3, len(data) / 2, len(data) - 1} {
+					if p > 0 && p < len(data) {
+						cuts = append(cuts, p)
+					}
+				}
+			}
+			for _, p := range cuts {
+				t := map[string]string{}
+				for kk, vv := range snaps[k] {
+					t[kk] = vv
+				}
+				t[effects[k].path] = snaps[k][effects[k].path] + string(data[:p])
+				out = append(out, crashState{k: k, torn: fmt.Sprintf("%d of %d bytes", p, len(data)), tree: t, model: cs.model.clone(),
+					desc: fmt.Sprintf("inside effect %d (%s): %d of %d bytes written", k, effects[k].desc, p, len(data))})
+			}
+		}
+	}
+	return out, res
+}
+
+func firstLine(s string) string {
+	if i := strings.IndexByte(s, '\n'); i >= 0 {
+		return s[:i]
+	}
+	return s
+}
+
+// modelAt computes the reference model of the state in which effects 0..k-1 happened.
+// A body counts as a successful execution once the record that follows it was renamed into
+// place (that is what the next process can know); a body that started and was not recorded is
+// unfinished; a failing body whose failure record was persisted is failed.
+func (x *searcher) modelAt(pre *State, o buildOpts, res *buildResult, effects []effectRec, k int, tree map[string]string) Model {
+	m := pre.M.clone()
+	type ack struct {
+		t  string
+		at int
+		ok bool
+	}
+	var acks []ack
+	for _, t := range pre.V.targets() {
+		c, started := res.StepAt[bodyName(t)]
+		if !started || c > k {
+			continue
+		}
+		if c == k {
+			// the body starts exactly at this boundary: it may or may not have begun; it has not
+			// touched anything yet, so it does not count as unfinished
+			continue
+		}
+		rp := recordPath(t)
+		at := -1
+		for j := c; j < k; j++ {
+			if strings.HasPrefix(effects[j].desc, "rename ") && strings.HasSuffix(effects[j].desc, " -> "+rp) {
+				at = j
+				break
+			}
+		}
+		failing := false
+		for i, f := range pre.V.Fail {
+			if f && failName[i] == bodyName(t) {
+				failing = true
+			}
+		}
+		switch {
+		case at < 0:
+			acks = append(acks, ack{t, 1 << 30, false})
+			m.T[t].Unfinished = !failing
+			if failing {
+				// the body failed at its first step without touching anything
+				m.T[t].Unfinished = false
+			}
+		case failing:
+			m.T[t].Failed = true
+		default:
+			acks = append(acks, ack{t, at, true})
+		}
+	}
+	sort.Slice(acks, func(i, j int) bool { return acks[i].at < acks[j].at })
+	for _, a := range acks {
+		if !a.ok {
+			continue
+		}
+		m.apply([]Event{{Kind: "Evaluating", Label: a.t}, {Kind: "Succeeded", Label: a.t}}, pre.V, tree)
+	}
+	return m
+}
+
+type crashJob struct {
+	hist   []string
+	target string
+}
+
+func crashMain(r *vlib.Run, x *searcher) {
+	controlled = true
+	byName := map[string]Op{}
+	for _, o := range append(edits(), builds()...) {
+		byName[o.Name] = o
+	}
+	pres := [][]string{
+		{},
+		{"build:top"},
+		{"build:top", "edit:src/a.txt"},
+		{"build:top", "edit:pkg/b.txt"},
+		{"build:top", "const:K"},
+		{"build:top", "delete:gen/g.txt"},
+		{"build:top", "rename:dir/y.txt<->z.txt"},
+		{"build:top", "edit:src/a.txt", "build:gen"},
+		{"fail:mid", "build:top", "fail:mid"},
+		{"build:top", "fail:gen", "edit:src/a.txt", "build:top", "fail:gen"},
+		{"build:top", "fail:leaf", "default:leaf.d"},
+	}
+	if r.Thorough() {
+		for _, e := range []string{"edit:dir/x.txt", "addremove:dir/w.txt", "default:leaf.d", "code:helper", "global:G", "closure:V", "flag:mode", "edge:top->leaf", "target:pkg:other", "delete:out/mid", "fail:gen", "fail:mid"} {
+			pres = append(pres, []string{"build:top", e})
+		}
+		pres = append(pres, []string{"build:top", "edit:src/a.txt", "edit:pkg/b.txt"}, []string{"build:top", "delete:gen/g.txt", "edit:pkg/b.txt"},
+			[]string{"build:top", "gc:full", "edit:src/a.txt"}, []string{"build:mid", "edit:src/a.txt"}, []string{"build:leaf"})
+	}
+	var jobs []crashJob
+	for _, p := range pres {
+		for _, t := range []string{tTop, tMid, tGen} {
+			jobs = append(jobs, crashJob{p, t})
+		}
+	}
+	recOps := []Op{byName["build:top"], byName["build:mid"], byName["build:gen"], byName["edit:src/a.txt"], byName["delete:gen/g.txt"]}
+	recDepth := 2
+	if r.Thorough() {
+		recOps = append(recOps, byName["build:leaf"], byName["const:K"], byName["fail:mid"], byName["dry:top"], byName["gc:full"])
+		recDepth = 3
+	}
+	r.Distribute(len(jobs), func(ji int) {
+		j := jobs[ji]
+		// reach the pre-state
+		s := &State{V: initialVars(), Art: map[string]string{}, M: newModel()}
+		for _, name := range j.hist {
+			ns := x.step(s, byName[name])
+			if len(ns) != 1 {
+				vlib.Fatalf("pre-state history %v: op %s not applicable", j.hist, name)
+			}
+			s = ns[0]
+		}
+		o := buildOpts{Target: j.target}
+		seen := map[string]bool{}
+		// crash states along every explored linearisation of the effects
+		// quick: the default linearisation only; thorough: every schedule with <=1 preemption (capped)
+		bound, maxExecs := 0, int64(1)
+		if r.Thorough() {
+			bound, maxExecs = 1, 150
+		}
+		ex := &vsched.Explorer{Bound: bound, Prune: true, MaxExecs: maxExecs}
+		var all []crashState
+		ex.Run = func(prefix []int) *vsched.Result {
+			css, res := x.crashStates(s, o, prefix, r.Thorough())
+			for _, cs := range css {
+				k := hashFiles(canonArt(artOf(cs.tree))) + cs.model.String()
+				if !seen[k] {
+					seen[k] = true
+					all = append(all, cs)
+				}
+			}
+			r.Add("crash_points", int64(len(css)))
+			if res.Sched == nil {
+				return &vsched.Result{}
+			}
+			return res.Sched
+		}
+		ex.Check = func(*vsched.Result) bool { return !r.Expired() }
+		ex.Explore()
+		r.Add("crash_builds", ex.Execs)
+		r.Add("distinct_crash_states", int64(len(all)))
+		if ex.Capped != "" && r.Thorough() {
+			r.Cap("linearisation exploration capped at " + ex.Capped + " per crashed build")
+		}
+		// recovery: BFS from every crash state
+		for _, cs := range all {
+			if r.Expired() {
+				r.Cap("wall-clock budget during recovery search")
+				return
+			}
+			start := &State{V: s.V, Art: artOf(cs.tree), M: cs.model, Crashed: true,
+				Hist: append(append([]string{}, j.hist...), fmt.Sprintf("CRASH during build of %s %s", j.target, cs.desc))}
+			// the state must load, with and without the index
+			for _, pi := range []bool{false, true} {
+				res := x.runBuildFiles(start.files(), start.V, buildOpts{Target: tTop, Dry: true, PreferIndex: pi})
+				if res.LoadErr != nil {
+					x.violation("crash-state-does-not-load", fmt.Sprintf("Load (PreferIndex=%v) fails after a crash: %s", pi, es(res.LoadErr)), start, start.Hist, res)
+				}
+			}
+			frontier := []*State{start}
+			seenR := map[string]bool{start.key(): true}
+			for d := 1; d <= recDepth; d++ {
+				var next []*State
+				for _, st := range frontier {
+					for _, op := range recOps {
+						for _, n := range x.step(st, op) {
+							r.Add("recovery_transitions", 1)
+							if k := n.key(); !seenR[k] {
+								seenR[k] = true
+								next = append(next, n)
+							}
+						}
+					}
+				}
+				frontier = next
+			}
+			r.Add("recovery_states", int64(len(seenR)))
+		}
+		if ji%7 == 0 && len(all) > 0 {
+			r.Sample(map[string]any{"pre_history": j.hist, "crash_build": j.target, "distinct_crash_states": len(all), "example_crash_point": all[len(all)/2].desc})
+		}
+	})
+	r.Assumptions = []string{
+		"crash model = process death: effects that happened persist, nothing else does (power-loss reordering of un-synced data is out of scope, as in the property)",
+		"a body is a successful execution once the record written after it has been renamed into place; a body that started without that is unfinished and must be re-executed",
+		"crash states are the prefixes of each explored linearisation of the persistent effects (quick: the default schedule; thorough: all schedules with <=1 preemption), plus torn prefixes of in-place writes",
+	}
+	r.Finish(vlib.Coverage{
+		Evaluations:        r.Get("crash_points") + r.Get("recovery_transitions"),
+		DistinctNontrivial: r.Get("distinct_crash_states"),
+		Rule:               "for each pre-state history x crashed build target: every crash point between two persistent effects (and torn in-place writes), de-duplicated on (tree bytes, model); from each, breadth-first recovery histories of the stated depth; non-trivial = distinct crash states",
+		States:             r.Get("distinct_crash_states") + r.Get("recovery_states"),
+		Transitions:        r.Get("recovery_transitions") + r.Get("crash_points"),
+		TracesValidated:    r.Get("crash_builds"),
+		Exhaustive:         true,
+		Outcomes:           r.NumOutcomes("executed_sets"),
+		Bounds:             map[string]any{"pre_states": len(pres), "crash_targets": 3, "recovery_depth": recDepth, "recovery_ops": len(recOps), "linearisation_preemption_bound": map[bool]int{false: 0, true: 1}[r.Thorough()]},
+	})
+}
